@@ -24,5 +24,10 @@ for avail in [0, 1, 4, 5, 6, 8]:
     for chunk in ([1, 2, 5, 8] if avail >= 4 else [8]):
         H.append(dict(name="marshalling.PointUnmarshalFrom-avail%d-chunk%d" % (avail, chunk), pkg=MP, files=MF, entry="HarnessPointUnmarshalFrom", mode="bv", params={"p0": avail, "p1": chunk}, validate=2, unwind=64,
                       functions=["marshalling.PointUnmarshalFrom", "io.ReadFull", "io.ReadAtLeast"], bound="stream of %d bytes delivered in chunks of at most %d" % (avail, chunk)))
+for mod in [13, 251]:
+    for t, tn in enumerate(["projPoint", "extPoint"]):
+        H.append(dict(name="vartime.%s.Equal-m%d" % (tn, mod), pkg="./group/edwards25519vartime", files=["harness/C03/vartime_equal.go"], entry="HarnessVartimeEqual", mode="int", params={"p0": mod, "p1": t}, validate=4,
+                      stubs=["math/big.Int as mathematical integers"], functions=["edwards25519vartime.(*%s).Equal" % tn, "mod.(*Int).Mul", "mod.(*Int).Equal"],
+                      bound="prime field of %d elements, all coordinates, Z != 0" % mod))
 json.dump(dict(property="C03", harnesses=H), open(os.path.join(here, "..", "specs", "C03.json"), "w"), indent=1)
 print(len(H))
